@@ -36,3 +36,5 @@ def run(ctx, R):
     a64hsem.rule_hsem(ctx, R)
     a64patch.rule_patchlen(ctx, R)
     a64hsem.rule_ss_hsem(ctx, R)
+    jit.rule_lw_value(ctx, R, 'a64')
+    a64hsem.rule_mem_hsem(ctx, R)
